@@ -183,6 +183,10 @@ def rule_specs(draw):
   algo, c = draw(R.cfg_specs(common_weight=3))
   if draw(st.integers(0, 7)) == 0:
     c = dict(c, skip=True)
+    if c['w'] is not None and draw(st.booleans()):
+      # blockwise weights are only reachable with skip_checks (no policy entry)
+      c['w'] = [c['w'][0], c['w'][1], 'BLOCKWISE', c['w'][3],
+                draw(st.sampled_from([1, 2, 2, 4, 32, 0]))]
   return R.rule(regex, op, algo, c)
 
 
